@@ -230,15 +230,24 @@ func nodifyStrucType(nodes []Node) Node {
 	return NewStructType(name, members)
 }
 
+// nodifyTupleOrStruct builds a tuple from "(" list ")" or, when the
+// optional "<" name members ">" part is present, a struct.
+func nodifyTupleOrStruct(nodes []Node) Node {
+	if _, ok := nodes[3].(parsec.MaybeNone); ok {
+		return nodifyTupleType(nodes[:3])
+	}
+	definition := nodes[3].([]Node)[0].([]Node)
+	return nodifyStrucType(append(nodes[:3:3], definition...))
+}
+
 func init() {
 
 	var arrayType parsec.Parser
 	var mapType parsec.Parser
-	var structType parsec.Parser
-	var tupleType parsec.Parser
+	var tupleOrStructType parsec.Parser
 
 	var declarationType = parsec.OrdChoice(nil,
-		basicType(), &mapType, &arrayType, &structType, &tupleType)
+		basicType(), &mapType, &arrayType, &tupleOrStructType)
 
 	arrayType = parsec.And(nodifyArrayType,
 		parsec.Atom("[", "MapStart"),
@@ -254,19 +263,17 @@ func init() {
 			typeName(),
 		))
 
-	tupleType = parsec.And(nodifyTupleType,
-		parsec.Atom("(", "TypeParameterStart"),
-		&listType,
-		parsec.Atom(")", "TypeParameterClose"))
-
-	structType = parsec.And(nodifyStrucType,
+	// the member list is parsed once: a tuple, optionally followed by
+	// the name and the member names which make it a struct.
+	tupleOrStructType = parsec.And(nodifyTupleOrStruct,
 		parsec.Atom("(", "TypeParameterStart"),
 		&listType,
 		parsec.Atom(")", "TypeParameterClose"),
-		parsec.Atom("<", "TypeDefinitionStart"),
-		structName(),
-		&typeMemberList,
-		parsec.Atom(">", "TypeDefinitionClose"))
+		parsec.Maybe(nil, parsec.And(nil,
+			parsec.Atom("<", "TypeDefinitionStart"),
+			structName(),
+			&typeMemberList,
+			parsec.Atom(">", "TypeDefinitionClose"))))
 
 	mapType = parsec.And(nodifyMap,
 		parsec.Atom("{", "MapStart"),
